@@ -62,6 +62,16 @@ def _s2cmi(m, nidx):
     return nv + 1
 
 
+def _index_aware_key(item):
+    """Sort key for flattened keys: array indexes compare as numbers, so that
+    ``p[10]`` comes after ``p[9]``.
+    """
+
+    key = item[0]
+    return (RE_HTTP_ARRAY_INDEX.sub("[]", key),
+                            [int(i) for i in RE_HTTP_ARRAY_INDEX.findall(key)])
+
+
 def _fill(inst_class, frequencies):
     """This function initializes the frequencies dict with null values. If this
     is not done, it won't be possible to catch missing elements when validating
@@ -180,7 +190,7 @@ class SimpleDictDocument(DictDocument):
         logger.debug("Simple type info key: %r", simple_type_info.keys())
 
         idxmap = defaultdict(dict)
-        for orig_k, v in sorted(doc.items(), key=lambda _k: _k[0]):
+        for orig_k, v in sorted(doc.items(), key=_index_aware_key):
             k = RE_HTTP_ARRAY_INDEX.sub("", orig_k)
 
             member = simple_type_info.get(k, None)
